@@ -94,6 +94,43 @@ def pair_shape(first, second, first_mode):
     return sh
 
 
+def history_shape(ename, variant, how):
+    """assignments and declarations interleaved on one resource: task A is assigned, a first constraint is declared,
+    task B is assigned, a second constraint of the same class is declared (other parameters), task C is assigned.
+    The first constraint binds A, the second binds A and B (a constraint covers the tasks assigned before it)."""
+    el = RELEMENTS[ename]
+    name = f"interleaved/{ename}/" + (",".join(f"{k}={v}" for k, v in sorted(variant.items())) or "-") + f"/{how}"
+
+    def build(P):
+        pb, hv = new_problem(P, False)
+        tis = _tasks(P, ("fixed", "fixed", "fixed"), (False, False, False))
+        res = ps.Worker(name="W") if how == "worker" else ps.CumulativeWorker(name="CW", size=2)
+        units = [res] if how == "worker" else list(res._cumulative_workers)
+
+        def busy_of(ts):
+            return [(t, u._busy_intervals[t.obj]) for u in units for t in ts if t.obj in u._busy_intervals]
+
+        tis[0].obj.add_required_resource(res)
+        c1 = el.build(_Prefixed(P, "f_"), res, **variant)
+        pb.constraints["rc_first"] = pb.constraints.pop("rc")
+        c1.name = "rc_first"
+        busy1 = busy_of(tis[:1])
+        tis[1].obj.add_required_resource(res)
+        c2 = el.build(P, res, **variant)
+        busy2 = busy_of(tis[:2])
+        tis[2].obj.add_required_resource(res)
+        return Ctx(problem=pb, tis=tis, busy1=busy1, busy2=busy2)
+
+    def obligations(ctx):
+        obs = [Ob(f"{PROP}/{name}/first_{cn}", "sound", clause=cl) for cn, cl in el.must(_Prefixed(ctx.P, "f_"), ctx.busy1, ctx.tis[:1], **variant)]
+        obs += [Ob(f"{PROP}/{name}/second_{cn}", "sound", clause=cl) for cn, cl in el.must(ctx.P, ctx.busy2, ctx.tis[:2], **variant)]
+        return obs
+
+    sh = Shape(name, build, obligations)
+    sh.assumptions = lambda P: list(el.assume(_Prefixed(P, "f_"), **variant)) + list(el.assume(P, **variant))
+    return sh
+
+
 class _Prefixed:
     """Params view that prefixes every parameter name (two constraints of one shape)."""
 
@@ -155,6 +192,10 @@ def shapes(tier):
     from checks import c03 as _c03
     out = _c03.monotone_shapes(PROP, tier, resource_rules=True)
     thorough = tier == "thorough"
+    for ename in ("ResourceUnavailable", "WorkLoad", "ResourcePeriodicallyUnavailable", "ResourceInterrupted"):
+        for how in ("worker", "cumulative"):
+            for variant in (RELEMENTS[ename].variants[:1] if not thorough else RELEMENTS[ename].variants[:3]):
+                out.append(history_shape(ename, variant, how))
     for ename, el in RELEMENTS.items():
         for vi, variant in enumerate(el.variants):
             for hi_, how in enumerate(el.setups):
